@@ -268,7 +268,8 @@ package vm
 // an invocation leaves in them does not depend on HOW it ended. (Seed C07f emptied the module table in the recover
 // block: a later Call re-ran module bodies or failed to import a module given as a global.)
 //@ scan[C07.modules.writers] C07 fieldwriters VirtualMachine.modules: createVM Clone applyOptions importModule resetForNewCode
-//@ scan[C07.loadedcode.writers] C07,C14 fieldwriters VirtualMachine.loadedCode: createVM Clone loadCode resetForNewCode
+// (reloadCode drops the entry of the main code when a REPL-style Run re-loads it: found when delete() / clear() became writes for this scan)
+//@ scan[C07.loadedcode.writers] C07,C14 fieldwriters VirtualMachine.loadedCode: createVM Clone loadCode reloadCode resetForNewCode
 //@ scan[C07.globals.writers] C07 fieldwriters VirtualMachine.globals: createVM Clone applyOptions
 //@ scan[C07.inputglobals.writers] C07 fieldwriters VirtualMachine.inputGlobals: createVM Clone WithGlobals
 //@ scan[C07.importer.writers] C07 fieldwriters VirtualMachine.importer: Clone WithImporter
